@@ -237,7 +237,12 @@ func largeBody(kind string) nd.Body {
 }
 
 func stanzaBody(kind string, maxChildren int) nd.Body {
-	types := map[string][]string{"iq": iqTypes, "message": msgTypes, "presence": presTypes}[kind]
+	return stanzaBodyTypes(kind, maxChildren, map[string][]string{"iq": iqTypes, "message": msgTypes, "presence": presTypes}[kind])
+}
+
+// stanzaBodyTypes: handlers are registered for the first two of the types, the
+// incoming stanza has any of them.
+func stanzaBodyTypes(kind string, maxChildren int, types []string) nd.Body {
 	return func(c *nd.Ctx) nd.Result {
 		// registered subset: payload patterns x the first two types
 		reg := map[string]bool{}
@@ -666,6 +671,7 @@ func init() {
 				{Name: "message", Body: stanzaBody("message", k), CutDepth: 6, Budget: b},
 				{Name: "presence", Body: stanzaBody("presence", k), CutDepth: 6, Budget: b},
 				{Name: "iq", Body: stanzaBody("iq", k), CutDepth: 6, Budget: b},
+				{Name: "iq-replies", Desc: "handlers registered for error and result IQs (replies are routed by their payload like requests)", Body: stanzaBodyTypes("iq", k, []string{"error", "result", "get"}), CutDepth: 6, Budget: b},
 				{Name: "message-ns", Desc: "children that inherit the stanza namespace (body, show) against exact, local-name, namespace and type-only patterns", Body: stanzaNSBody("message", k), CutDepth: 6, Budget: b},
 				{Name: "presence-ns", Desc: "the same for presences", Body: stanzaNSBody("presence", k), CutDepth: 6, Budget: b},
 				{Name: "message-large", Desc: "a child with 255..2500 elements (510..5000 tokens) before / after a small one, two payload handlers, every read program", Body: largeBody("message"), CutDepth: 4, Budget: b},
